@@ -54,7 +54,10 @@ CLAIM = dict(
     "of cos(pi/2) on rounding breakpoints (known finding, observed only); the Powell search itself is out of scope; DarSIA's algebra around it (centre-of-mass "
     "preconditioning, fold-back of the shift with scaling and rotation, start vector, objective) is modelled with the optimiser's "
     "result as a parameter (fit_fold_back_correct, fit_fold_back_correct_3d, fit_objective_preserved, fit2_is_folded, "
-    "precondition_exact_for_translation) and tied with scipy.optimize.minimize replaced by a recorder.",
+    "precondition_exact_for_translation) and tied with scipy.optimize.minimize replaced by a recorder. Typed evaluation (results wrapped in the output / "
+    "input point type, single points and point sets) is modelled (wrapPoint2, typedCall2, typedInverse2; wrap_center_half, "
+    "typed_center_roundtrip_translation, wrong_wrap_differs), tied exactly incl. the class of the result, and searched on the "
+    "implementation (round trips, point set vs single point).",
     technique="Lean 4 proof (ring identities by induction over the factor list; floor/trunc lemmas over Q) + G1 tabulation + "
     "differential correspondence + property oracle",
 )
@@ -359,6 +362,95 @@ def corr_warps(ctx, d, rnd_name):
     d2 = correspond_masked(ctx, "warp(float stream, breakpoint-aware)", lines, impl)
     return d1 + d2
 
+
+
+PTCLS = {"coord": ("Coordinate", "CoordinateArray"), "voxel": ("Voxel", "VoxelArray"), "center": ("VoxelCenter", "VoxelCenterArray")}
+
+
+def typed_points(d, mode, pts, single):
+    mk = {"coord": d.make_coordinate, "voxel": d.make_voxel, "center": d.make_voxel_center}[mode]
+    arr = np.array(pts, dtype=float)
+    return mk(arr[0]) if single else mk(arr)
+
+
+def typed_eval(d, T, mode, dirn, x, single):
+    """forward / inverse evaluation of a typed point (set): checks the class of the result, returns the numbers"""
+    y = T(x) if dirn == "call" else T.inverse(x)
+    want = getattr(d, PTCLS[mode][0 if single else 1])
+    if type(y) is not want:
+        raise TypeError(f"{type(y).__name__} returned, {want.__name__} expected")
+    return np.atleast_2d(np.asarray(y, dtype=float))
+
+
+def corr_typed_points(ctx, d, rnd_name):
+    """typed evaluation (Coordinate / Voxel / VoxelCenter maps, single points and point sets, forward and inverse): class of the
+    result and the numbers vs the model; no rotation and dyadic parameters, so the comparison is exact"""
+    rng = ctx.rng
+    lines, impl = [], []
+    for i in range(ctx.pick(36, 360)):
+        mode = MODES[i % 3]
+        dirn = ("call", "inv")[(i // 3) % 2]
+        single = (i // 6) % 3 == 0
+        t = [dy(rng, -6, 6, 4), dy(rng, -6, 6, 4)] if i % 4 else [Fr(rng.randint(-4, 4)), Fr(rng.randint(-4, 4))]
+        sigma = Fr(rng.choice([1, 1, 2, 4]), rng.choice([1, 1, 2]))
+        n = 1 if single else rng.randint(1, 5)
+        raw = [[rng.randint(-6, 8), rng.randint(-6, 8)] for _ in range(n)]
+        pts = raw if mode != "coord" else [[float(dy(rng, -6, 6, 4)), float(dy(rng, -6, 6, 4))] for _ in range(n)]
+        sent = [[Fr(v) + (Fr(1, 2) if mode == "center" else 0) for v in p] for p in pts]  # what the typed input holds
+        lines.append(f"taff2 {dirn} {mode} {rnd_name} {fmt(t[0])} {fmt(t[1])} {fmt(sigma)} 0 {n} " + " ".join(fmt(v) for p in sent for v in p))
+
+        def run():
+            T = mk_T(d, 2, mode, t, sigma, None if i % 2 else [0.0])
+            x = typed_points(d, mode, pts, single)
+            if not np.array_equal(np.atleast_2d(np.asarray(x, float)), np.array([[float(v) for v in p] for p in sent])):
+                raise ValueError("typed input does not hold the expected numbers")
+            return " ".join(fmt(v) for v in typed_eval(d, T, mode, dirn, x, single).ravel())
+
+        r = call(run)
+        impl.append(repr(r) if isinstance(r, Raised) else r)
+    return ctx.correspond("typed points: forward / inverse evaluation wraps in the output / input point type (exact)", lines, impl)
+
+
+def check_typed_case(ctx, d, case):
+    """property clause on the implementation: for a map typed on voxels / voxel centres and a whole-voxel translation or (voxel
+    centres) a quarter turn, map(inverse(y)) = y and inverse(map(x)) = x, for single points and point sets alike"""
+    mode, kind = case["mode"], case["kind"]
+    t = case["t"]
+    ang = {"translation": 0.0, "quarter": math.pi / 2, "quarter-": -math.pi / 2}[kind]
+    T = call(mk_T, d, 2, mode, t, 1.0, [ang])
+    if isinstance(T, Raised):
+        return [("C09:AffineTransformation(2).set_parameters:raises", f"{T}")]
+    bad = []
+    pts = case["pts"]
+    sets = call(typed_points, d, mode, pts, False)
+    both = {}
+    for dirs in (("inv", "call"), ("call", "inv")):
+        for single in (False, True):
+            def run():
+                x = typed_points(d, mode, pts, single)
+                y = T(x) if dirs[0] == "call" else T.inverse(x)
+                z = T(y) if dirs[1] == "call" else T.inverse(y)
+                for obj in (y, z):
+                    want = getattr(d, PTCLS[mode][0 if single else 1])
+                    if type(obj) is not want:
+                        raise TypeError(f"{type(obj).__name__} returned, {want.__name__} expected")
+                return np.atleast_2d(np.asarray(x, float)), np.atleast_2d(np.asarray(y, float)), np.atleast_2d(np.asarray(z, float))
+
+            r = call(run)
+            name = "map(inverse(y))" if dirs == ("inv", "call") else "inverse(map(x))"
+            if isinstance(r, Raised):
+                bad.append((f"C09:typed-points(mode={mode},{kind}):{name}:{'single' if single else 'set'}:{'wrong-class' if r.cls == 'type' else 'raises'}",
+                            f"{name} on a {'single point' if single else 'point set'} typed {PTCLS[mode][0]}: {r.exc}"))
+                continue
+            x, y, z = r
+            both[(dirs, single)] = y
+            if not np.array_equal(x, z):
+                bad.append((f"C09:typed-points(mode={mode},{kind}):{name}≠id:{'single' if single else 'set'}",
+                            f"{name} of {x.tolist()} is {z.tolist()} for a {PTCLS[mode][0]}-typed {kind} map with translation {t}"))
+        if (dirs, False) in both and (dirs, True) in both and not np.array_equal(both[(dirs, False)][:1], both[(dirs, True)]):
+            bad.append((f"C09:typed-points(mode={mode},{kind}):point-set≠single-point",
+                        f"first row of the point-set result {both[(dirs, False)][:1].tolist()} differs from the single-point result {both[(dirs, True)].tolist()}"))
+    return bad
 
 
 def corr_fit_fold(ctx, d):
@@ -1120,6 +1212,13 @@ def oracle(ctx, d):
                     angle=rng.uniform(-0.5, 0.5))
         ctx.count(("fit-exact", i))
         report(ctx, check_fit_case(ctx, d, case), case)
+    for i in range(ctx.pick(18, 150)):
+        mode = ("voxel", "center")[i % 2]
+        kind = "translation" if (mode == "voxel" or i % 3) else ("quarter", "quarter-")[(i // 6) % 2]
+        case = dict(typed=True, mode=mode, kind=kind, t=[rng.randint(-5, 5), rng.randint(-5, 5)],
+                    pts=[[rng.randint(-6, 8), rng.randint(-6, 8)] for _ in range(rng.randint(1, 5))])
+        ctx.count(("typed-points", mode, kind, i))
+        report(ctx, check_typed_case(ctx, d, case), case)
     iso_lines, iso_vals = [], []
     for i in range(ctx.pick(8, 60)):
         shape = [rng.randint(3, 6), rng.randint(3, 6)]
@@ -1166,7 +1265,9 @@ def replay(data):
     if case is None:
         print(json.dumps(data, indent=1))
         return 0
-    if case.get("fit"):
+    if case.get("typed"):
+        bad = check_typed_case(_C(), d, case)
+    elif case.get("fit"):
         bad = check_fit_case(_C(), d, case)
     elif "rotations" in case:
         bad = check_rotcorr_case(_C(), d, case)
@@ -1192,7 +1293,7 @@ def run(ctx):
         data = json.loads(f.read_text())
         case = data.get("replay", {}).get("case", data.get("case"))
         if case:
-            fn = (check_fit_case if case.get("fit") else check_rotcorr_case if "rotations" in case else check_gp_case if str(case.get("kind", "")).startswith("gp-")
+            fn = (check_typed_case if case.get("typed") else check_fit_case if case.get("fit") else check_rotcorr_case if "rotations" in case else check_gp_case if str(case.get("kind", "")).startswith("gp-")
                   else check_warp_case if "kind" in case else check_affine_case)
             report(ctx, fn(ctx, d, case), case)
     # (1) G1: rounding of the point constructors
@@ -1215,6 +1316,7 @@ def run(ctx):
     corr_genperspective(ctx, d)
     corr_ctmeta(ctx, d)
     corr_fit_fold(ctx, d)
+    corr_typed_points(ctx, d, rnd_name)
     # (4) oracle
     oracle(ctx, d)
 
